@@ -170,6 +170,7 @@ where
 }
 
 pub use crate::channel::verif::VQueue;
+pub use crate::executor::VerifInjector as VInjector;
 
 use std::collections::HashMap;
 use std::sync::Mutex;
